@@ -62,11 +62,13 @@ SOURCES = {
     # the item is read from the DATA line but the assignment fails in the READ statement: ERL is the line of the READ
     'READOVF': [('read', ['K%'])],
     'GOTO': [('goto', 7777)],
+    # a refused ON ERROR GOTO (no such line): the trap that is armed stays armed
+    'ONERRBAD': [('onerror', 7777)],
     'RESUME': [('resume', None)],
     'RESUMENEXT': [('resume', 'next')],
 }
 SOURCE_ORDER = ['ERROR5', 'ERROR255', 'ERROR73', 'DIV0', 'OVERFLOW', 'TYPE', 'NEXT', 'RETURN', 'READ', 'READOVF',
-                'GOTO', 'RESUME', 'RESUMENEXT']
+                'GOTO', 'ONERRBAD', 'RESUME', 'RESUMENEXT']
 
 POSITIONS = ['alone', 'first', 'middle', 'last', 'then', 'else']
 CONTEXTS = ['main', 'gosub1', 'gosub2', 'for', 'forline', 'while', 'direct']
@@ -586,7 +588,7 @@ def _legs_model(ctx):
                   'disarmed trap), minus invalid combinations' % (
                       len(main), len(SOURCE_ORDER), len(POSITIONS), len(CONTEXTS), len(HANDLERS))),
         Leg('pairs', list(chunked(pairs, 60)), work_cases, exhaustive=True,
-            bound='%d programs: all ordered pairs of 11 sources in consecutive lines x contexts x handlers' % len(pairs)),
+            bound='%d programs: all ordered pairs of %d sources in consecutive lines x contexts x handlers' % (len(pairs), len(SOURCE_ORDER) - 1)),
         Leg('high-lines', list(chunked(cases_high(ctx.quick), 60)), work_cases, exhaustive=True,
             bound='%d programs: the product at one position with every line number and reference moved up by %d '
                   '(all lines beyond 32767)' % (len(cases_high(ctx.quick)), HIGH_SHIFT)),
